@@ -110,7 +110,7 @@ impl Campaign for C14c {
         true
     }
     fn extra_assumptions(&self) -> Vec<String> {
-        vec!["'bounded in proportion to the bytes actually received' is read as: largest single allocation <= 4 x bytes sent + 2 MiB and live-heap growth <= 24 x bytes sent + 24 MiB (the harness' own copies of the scenario are included in the measurement); declared lengths in the generator start at 128 MiB".into()]
+        vec!["'bounded in proportion to the bytes actually received' is read as: largest single allocation <= 4 x bytes sent + 16 MiB and live-heap growth <= 24 x bytes sent + 64 MiB (the harness' own copies of the scenario are included in the measurement); declared lengths in the generator start at 128 MiB".into()]
     }
     fn generate(&self, rng: &mut Rng, index: u64, _tier: Tier) -> Scenario {
         let mut sc = Scenario::new();
@@ -170,15 +170,15 @@ impl Campaign for C14c {
                 detail: format!("{}: a thread panicked outside the application's own code: {}", sc.note, lp.join("; ")),
             });
         }
-        let single_bound = 4 * sent + (2 << 20);
+        let single_bound = 4 * sent + (16 << 20);
         if out.max_alloc > single_bound {
             v.violations.push(Violation {
                 clause: "C14.alloc_bound".into(),
                 signature: format!("class {}", class),
-                detail: format!("{}: a single allocation of {} bytes was requested while the clients sent only {} bytes in total (bound 4 x sent + 2 MiB = {})", sc.note, out.max_alloc, sent, single_bound),
+                detail: format!("{}: a single allocation of {} bytes was requested while the clients sent only {} bytes in total (bound 4 x sent + 16 MiB = {})", sc.note, out.max_alloc, sent, single_bound),
             });
         }
-        let live_bound = 24 * sent + (24 << 20);
+        let live_bound = 24 * sent + (64 << 20);
         if out.peak_live > live_bound {
             v.violations.push(Violation {
                 clause: "C14.alloc_bound".into(),
